@@ -427,7 +427,7 @@ impl Prop for C18Random {
     const PART: &'static str = "random-roadmaps";
     const RULE: &'static str = "proptest-generated PRM cases: generated spaces/worlds (30% obstacle-free for exact link completeness), 20-400 recorded samples from the real seeded sampler, connection radius 0.1-0.7 x extent, query histories over {construct, solve, set_problem_definition(P1|P2), setup} with two problems. Non-trivial as in the scripted part.";
     fn random_cases(tier: Tier) -> usize {
-        tier.pick(1_500, 30_000)
+        tier.pick(4_000, 30_000)
     }
     fn gen(ch: &mut Ch, tier: Tier) -> PlanCase {
         let prof = Profile {
